@@ -28,6 +28,7 @@ pub const DEF: PropDef = PropDef {
 
 pub const SUBS: &[SubDef] = &[
     SubDef { prop: "C02", name: "frame_exhaustive", oracle: frame_exhaustive },
+    SubDef { prop: "C02", name: "frame_shapes", oracle: frame_shapes },
     SubDef { prop: "C02", name: "frame_generated", oracle: frame_generated },
     SubDef { prop: "C02", name: "frame_raw", oracle: frame_raw },
 ];
@@ -54,6 +55,24 @@ fn run(ctx: &Ctx) {
         &format!("{} content types x all 65536 declared lengths x 3 parsers x 10 cut points", types.len()),
         cases,
     );
+    // records whose first payload bytes are what a message of that content type starts with, alone and followed by a twin record:
+    // the framing layer must not look at them (no merging of adjacent records, no read-ahead hints for long messages)
+    let mut cases: Vec<Vec<u8>> = Vec::new();
+    for ty in 0x14..=0x19u8 {
+        for l in 0..=5u8 {
+            for v in 0..6u8 {
+                cases.push(vec![0, ty, l, v]);
+            }
+        }
+    }
+    for ht in [0u8, 1, 2, 4, 5, 6, 8, 11, 12, 13, 14, 15, 16, 20, 22, 24, 25, 67, 254] {
+        for li in 0..6u8 {
+            for di in 0..5u8 {
+                cases.push(vec![1, ht, li, di]);
+            }
+        }
+    }
+    ctx.run_enum("frame_shapes", frame_shapes, false, "6 content types x payload lengths 0..5 x 6 payload starts, each alone and twice in a row; 19 handshake types x 6 record lengths x 5 declared message lengths; every cut near the boundaries", cases.into_iter());
     ctx.run_tape("frame_generated", frame_generated, ctx.pick(6_000, 400_000), 512);
     ctx.run_tape("frame_raw", frame_raw, ctx.pick(10_000, 400_000), 64);
 }
@@ -198,6 +217,58 @@ fn frame_exhaustive(t: &mut Tape, obs: &mut Obs) -> R {
         }
         Ok(())
     })
+}
+
+/// parameter tape: [0, content type, payload length, variant] or [1, handshake type, record-length index, declared-length index]
+fn frame_shapes(t: &mut Tape, obs: &mut Obs) -> R {
+    let kind = t.u8();
+    let (a, b, c) = (t.u8(), t.u8(), t.u8());
+    let mut inputs: Vec<Vec<u8>> = Vec::new();
+    if kind == 0 {
+        let (ty, l, v) = (a, b as usize, c);
+        // payload starts: a fatal alert, a warning close_notify, a ChangeCipherSpec byte, a handshake header, a heartbeat request, zeros
+        let start: &[u8] = [&[2u8, 40, 2, 40, 2][..], &[1, 0, 1, 0, 1], &[1, 1, 1, 1, 1], &[14, 0, 0, 0, 14], &[1, 0, 1, 0x61, 0x62], &[0, 0, 0, 0, 0]][v as usize % 6];
+        let version = [0x0301u16, 0x0303, 0x0300][l % 3];
+        let mut r = vec![ty, (version >> 8) as u8, version as u8, 0, l as u8];
+        r.extend_from_slice(&start[..l]);
+        let mut twice = r.clone();
+        twice.extend_from_slice(&r);
+        let mut other = r.clone();
+        other.extend_from_slice(&[ty, 3, 3, 0, l as u8]);
+        other.extend(start[..l].iter().map(|x| x ^ 0x29));
+        inputs.push(r);
+        inputs.push(twice);
+        inputs.push(other);
+    } else {
+        let ht = a;
+        let l = [4usize, 100, 16383, 16384, 16385, 16640][b as usize % 6];
+        let declared = [l.saturating_sub(4), l.saturating_sub(3), 40_000, 0xff_ffff, 16_381][c as usize % 5];
+        let mut r = vec![0x16, 3, [1u8, 3][l % 2], (l >> 8) as u8, l as u8];
+        let mut payload = vec![0x42u8; l];
+        payload[..4].copy_from_slice(&[ht, (declared >> 16) as u8, (declared >> 8) as u8, declared as u8]);
+        r.extend(payload);
+        r.extend_from_slice(&[0x16, 3, 3, 0x40, 0x00, 0x0b]);
+        inputs.push(r);
+    }
+    for input in &inputs {
+        let l = ((input[3] as usize) << 8) | input[4] as usize;
+        let mut cuts: Vec<usize> = (0..=12.min(input.len())).collect();
+        for c in [5 + l - l.min(1), 5 + l, 5 + l + 1, 5 + l + 5, 5 + l + 6, input.len() - 1, input.len()] {
+            if c <= input.len() && !cuts.contains(&c) {
+                cuts.push(c);
+            }
+        }
+        for p in PARSERS {
+            for &c in &cuts {
+                obs.evals_add(1);
+                check_cut(p, &input[..c], obs)?;
+            }
+        }
+    }
+    if obs.wants_sample() {
+        obs.sample(json!({"shape": if kind == 0 { "twin records" } else { "handshake header at the start of the payload" }, "hex": hex_short(&inputs[inputs.len() - 1])}));
+    }
+    Ok(())
 }
 
 /// the tape itself is the input: the framing contract on arbitrary bytes and on every prefix of them
